@@ -488,7 +488,7 @@ func (ex *Exec) run() (err error) {
 			continue
 		}
 		for _, cl := range c.Assigns {
-			ex.assign = append(ex.assign, e.evalAssigns(cl.Expr)...)
+			ex.assign = append(ex.assign, e.evalAssignsClause(cl)...)
 		}
 	}
 	// entry snapshot
